@@ -242,3 +242,6 @@ func (h *H) PickBytes(c bool, a, b []byte) []byte {
 	}
 	return b
 }
+
+// Log prints a diagnostic natively (ignored by the engine and by the replay comparison).
+func (h *H) Log(label string, v any) { fmt.Printf("VRT-LOG %s=%v\n", label, v) }
